@@ -141,8 +141,15 @@ def hextNode (skolemize : Bool) (st : PS) (l : Lbl) : PS × T :=
   | .named n => ((keepLabel st n).1, wrapT skolemize (keepLabel st n).2)
   | _ => ((getOrNew st l).1, wrapT skolemize (getOrNew st l).2)
 
+/-- patch.py `RDFPatchParser.nodeid` / `labeled_bnode`: `BNode(label)` for `_:x` and for `<_:x>` — neither
+    `bnode_context` nor `skolemize` is looked at (an RDF Patch talks about the nodes of the store it is applied to) -/
+def patchNode (st : PS) (l : Lbl) : PS × T :=
+  match l with
+  | .named n => keepLabel st n
+  | _ => getOrNew st l
+
 inductive Parser
-  | nt | nquads | turtle | n3 | trig | xml | trix | jsonld | hext
+  | nt | nquads | turtle | n3 | trig | xml | trix | jsonld | hext | patch
   deriving DecidableEq, Repr
 
 /-- the keyword arguments of `parse()` that change label handling (each parser reads only its own) -/
@@ -164,6 +171,7 @@ def nodeFn : Parser → CallOpts → PS → Lbl → PS × T
   | .trix, c => trixGetBnode c.preserve
   | .jsonld, c => jsonldNode c.skolemize
   | .hext, c => hextNode c.skolemize
+  | .patch, _ => patchNode
 
 /-- only the JSON-LD parser can meet a blank-node predicate (every other syntax rejects it) and
     gives the statement up unless `generalized_rdf` -/
@@ -182,6 +190,7 @@ def loptsOf : Parser → CallOpts → LOpts
   | .trix, c => ⟨if c.preserve then .verbatim else .remap, false, true⟩
   | .jsonld, c => ⟨if c.skolemize then .verbatim else .remap, c.skolemize, c.generalized⟩
   | .hext, c => ⟨.verbatim, c.skolemize, true⟩
+  | .patch, _ => ⟨.verbatim, false, true⟩
 
 /-! ### which dict `nodeid` works on (N-Triples, N-Quads) -/
 
@@ -271,5 +280,28 @@ def n3Run (into : T) : N3S → List Ev → N3S × List Quad
 def parseN3 (d : DS) (into : T) (evs : List Ev) : DS :=
   let r := n3Run into ⟨d.fresh, [], [], []⟩ evs
   { quads := addAll d.quads r.2, fresh := r.1.fresh }
+
+/-! ### RDF Patch (`patch.py`): rows `A` (add) and `D` (delete), labels verbatim, always the dataset's default graph -/
+
+inductive POp
+  | add
+  | del
+  deriving DecidableEq, Repr
+
+abbrev PatchDoc := List (POp × DQuad)
+
+/-- `RDFPatchParser.add_or_remove_triple_or_quad`, row by row: `A` → `get_context(context).add(…)`, `D` → `.remove(…)`;
+    a row without graph column goes to `self.sink.default_context` where `self.sink = Dataset(store=sink.store)`:
+    the dataset's default graph `dflt`, whatever graph the caller parses into -/
+def patchRun (dflt : T) : PS → List Quad → PatchDoc → PS × List Quad
+  | st, qs, [] => (st, qs)
+  | st, qs, (op, q) :: rest =>
+    match (quadF patchNode true dflt st q).2, op with
+    | some x, .add => patchRun dflt (quadF patchNode true dflt st q).1 (sinsert qs x) rest
+    | some x, .del => patchRun dflt (quadF patchNode true dflt st q).1 (sremove qs x) rest
+    | none, _ => patchRun dflt (quadF patchNode true dflt st q).1 qs rest
+
+def parsePatch (d : DS) (dflt : T) (doc : PatchDoc) : DS :=
+  { quads := (patchRun dflt ⟨d.fresh, []⟩ d.quads doc).2, fresh := (patchRun dflt ⟨d.fresh, []⟩ d.quads doc).1.fresh }
 
 end RV.C12
